@@ -843,6 +843,9 @@ func (k *chk15) checkNumber(r *fw.Rand, t target, pt, key string, v decimal.Deci
 	for i := 0; i < 3; i++ {
 		xs = append(xs, qv{far[i], "far"})
 	}
+	// the empty value: = and != with it are presence tests; where the parser also takes the ordering operators with it, all six
+	// have to be consistent like with any other value
+	xs = append(xs, qv{`""`, "empty"})
 	for _, q := range xs {
 		x := q.x
 		o, ok := k.sixWay(t, prop, x)
